@@ -47,10 +47,21 @@ func (c10) Gen(rng *sim.Rand, tier string) *Case {
 	if rng.Chance(0.3) {
 		c.Params["pct"] = rng.Range(1, 4)
 	}
+	// a third of the cases concentrate on one (network, transport, port): every operation names it, only the
+	// address varies, so that one port goes through long histories (several holders, released in any order,
+	// ephemeral requests in between) instead of many ports through short ones
+	hot := rng.Chance(0.35)
+	hotNet, hotTr, hotPort := rng.Intn(len(c10Nets)), rng.Intn(len(c10Trans)), 1+rng.Intn(len(c10Ports)-1)
+	if hot {
+		c.Params["one_port"] = 1
+	}
 	for i := 0; i < nt; i++ {
 		var s []Op
 		for k := rng.Range(2, maxOps); k > 0; k-- {
 			op := Op{A: rng.Intn(len(c10Nets)), B: rng.Intn(len(c10Trans)), C: rng.Intn(len(c10Addrs)), D: rng.Intn(len(c10Ports))}
+			if hot {
+				op.A, op.B, op.D = hotNet, hotTr, hotPort
+			}
 			switch rng.Pick(5, 3, 2, 1) {
 			case 0:
 				op.K = "reserve"
